@@ -86,6 +86,41 @@ def subjects():
         return Holder, Holder(types.MappingProxyType({"a": 1})), {"m": types.MappingProxyType}
     out.append(("builtins-module generic MappingProxyType", mapping_proxy))
 
+    def rebound(kind, lazy):
+        """the module-level NAME of a nested dataclass is re-bound to another class after the holder exists (a re-run notebook
+        cell, a reloaded module, a v2 model): the holder's annotation still names the ORIGINAL class object"""
+        def build():
+            import sys
+            from mashumaro.config import BaseConfig
+            modname = f"mverif_rebound_{kind}_{int(lazy)}"
+            mod = types.ModuleType(modname)
+            sys.modules[modname] = mod
+            Item = dataclasses.make_dataclass("Item", [("sku", str), ("n", int, dataclasses.field(default=1))], namespace={"__module__": modname})
+            Item.__module__ = modname
+            mod.Item = Item
+            base = {"dict": DataClassDictMixin}[kind] if kind == "dict" else __import__("mashumaro.mixins." + kind, fromlist=["x"]).__dict__[
+                {"json": "DataClassJSONMixin", "msgpack": "DataClassMessagePackMixin", "orjson": "DataClassORJSONMixin"}[kind]]
+            ns = {"__module__": modname, "__annotations__": {"item": Item, "items": typing.List[Item], "opt": typing.Optional[Item], "by": typing.Dict[str, Item]}}
+            if lazy:
+                ns["Config"] = type("Config", (BaseConfig,), {"lazy_compilation": True})
+            Holder = dataclasses.dataclass(type("Holder", (base,), ns))
+            mod.Holder = Holder
+            value = Holder(Item("a"), [Item("b", 2)], Item("c"), {"k": Item("d")})
+            # ... and only now the name is re-bound
+            Decoy = dataclasses.make_dataclass("Item", [("sku", str), ("n", int, dataclasses.field(default=1)), ("v2", bool, dataclasses.field(default=True))],
+                                               namespace={"__module__": modname})
+            mod.Item = Decoy
+            if kind != "dict":
+                to_m, from_m = {"json": ("to_json", "from_json"), "msgpack": ("to_msgpack", "from_msgpack"), "orjson": ("to_jsonb", "from_json")}[kind]
+                back = getattr(Holder, from_m)(getattr(value, to_m)())
+                if type(back.item) is not Item or type(back.items[0]) is not Item or type(back.opt) is not Item or type(back.by["k"]) is not Item:
+                    raise AttributeError(f"from_{kind}: nested values are instances of {type(back.item)!r}, not of the annotated class")
+            return Holder, value, {"item": Item, "opt": Item}
+        return build
+    for kind in ("dict", "json", "msgpack", "orjson"):
+        for lazy in (False, True):
+            out.append((f"module-level name of a nested dataclass re-bound after the holder was defined ({kind} mixin, lazy={lazy})", rebound(kind, lazy)))
+
     def local_dialect():
         from mashumaro.config import ADD_DIALECT_SUPPORT, BaseConfig
         from mashumaro.dialect import Dialect
